@@ -144,7 +144,7 @@ func NewSnapshotEngine(options ...func(engine *Engine)) *Engine {
 			}()
 			for {
 				<-ticker.C
-				verifhook.Event("snap.tick", engine.changeCount.Load(), engine.snapshotThreshold)
+				verifhook.Event("snap.tick", engine.changeCount.Load(), engine.snapshotThreshold, engine.directory)
 				if engine.changeCount.Load() >= engine.snapshotThreshold {
 					if err := engine.TakeSnapshot(); err != nil {
 						log.Println(err)
